@@ -9,7 +9,7 @@
 //! `c20 consts`         the float tables as the same Rust expressions evaluate here (bits of the f64)
 //! `c20 store DIR FLAGS..`   one session of a real KeyValueStore with its real memtable thread and
 //!   K real compaction threads; ops on stdin:
-//!     put K V | del K | flushreq | flush | step | peek | dump | state | threads K | parked
+//!     put K V | del K | flushreq | flushwait MS K | flush | step | peek | dump | state | threads K | parked
 //!     trace on|off | taketrace | watch MS K | sleep MS
 use std::collections::HashMap;
 use std::io::{BufRead, Write};
@@ -221,6 +221,33 @@ fn store(args: &[String]) {
                     let target = kvs.verif_request_flush();
                     kvs.verif_wait_flush(target);
                     format!("FLUSH {target}")
+                }
+                "flushwait" => {
+                    // waits for the flush requested last: done | deadlock (decided by the parked
+                    // counters, as in `watch`) | timeout | threadexit
+                    let ms: u64 = t[1].parse().unwrap();
+                    let k: usize = t[2].parse().unwrap();
+                    let target = flush_target.unwrap_or(0);
+                    let t0 = std::time::Instant::now();
+                    let mut verdict = "timeout";
+                    while t0.elapsed().as_millis() < ms as u128 {
+                        let st = kvs.verif_state();
+                        if st.imm_trigger >= target && !st.has_imm && st.mem_seq_no > target {
+                            verdict = "done";
+                            break;
+                        }
+                        if exited2.load(Ordering::SeqCst) > 0 {
+                            verdict = "threadexit";
+                            break;
+                        }
+                        let p = kvs.verif_tree().verif_parked();
+                        if p.stall >= 1 && p.compact == k && p.ongoing == 0 {
+                            verdict = "deadlock";
+                            break;
+                        }
+                        std::thread::sleep(std::time::Duration::from_millis(1));
+                    }
+                    format!("FLUSHWAIT {verdict}")
                 }
                 "step" => match kvs.verif_tree().verif_compaction_step() {
                     Ok(None) => "STEP none".into(),
